@@ -620,6 +620,9 @@ func initTopicNewGrp(t *Topic, sreg *ClientComMessage, isChan bool) error {
 	pktsub.Created = true
 	pktsub.Newsub = true
 
+	// Initiate session updates (background sessions coming online) like initTopicGrp does.
+	t.supd = make(chan *sessionUpdate, 32)
+
 	return nil
 }
 
